@@ -236,6 +236,30 @@ impl O3 {
             O3::DA(x) => (x.transform_vector3(dv).to_array(), x.transform_point3(dp).to_array()),
         }
     }
+    /// the same action through the Vec3A forms (`q * Vec3A`, `mul_vec3a`, `Mat3/Mat3A * Vec3A`, `transform_point3a`,
+    /// `transform_vector3a`), the probes carrying junk in their padding lane; None for the f64 types
+    pub fn act_a(&self, v: [f32; 3], p: [f32; 3]) -> Option<Vec<(&'static str, [f64; 3], [f64; 3])>> {
+        let j = |a: [f32; 3], h: u32| Vec3A::from_vec4(glam::Vec4::new(a[0], a[1], a[2], f32::from_bits(h)));
+        let (va, pa) = (j(v, 0x7fc0_0000), j(p, 0xff80_0000));
+        let (vb, pb) = (j(v, 0x7149_f2ca), j(p, 0x0000_0001));
+        Some(match self {
+            O3::Q(x) => vec![
+                ("q * Vec3A", f64s((*x * va).to_array()), f64s((*x * pa).to_array())),
+                ("q.mul_vec3a", f64s(x.mul_vec3a(vb).to_array()), f64s(x.mul_vec3a(pb).to_array())),
+            ],
+            O3::M3(x) => vec![("Mat3 * Vec3A", f64s((*x * va).to_array()), f64s((*x * pa).to_array())), ("Mat3::mul_vec3a", f64s(x.mul_vec3a(vb).to_array()), f64s(x.mul_vec3a(pb).to_array()))],
+            O3::M3A(x) => vec![("Mat3A * Vec3A", f64s((*x * va).to_array()), f64s((*x * pa).to_array())), ("Mat3A::mul_vec3a", f64s(x.mul_vec3a(vb).to_array()), f64s(x.mul_vec3a(pb).to_array())), ("Mat3A * Vec3", f64s((*x * Vec3::from_array(v)).to_array()), f64s((*x * Vec3::from_array(p)).to_array()))],
+            O3::M4(x) => vec![
+                ("Mat4::transform_*3a", f64s(x.transform_vector3a(va).to_array()), f64s(x.transform_point3a(pa).to_array())),
+                ("Mat4::transform_*3a", f64s(x.transform_vector3a(vb).to_array()), f64s(x.transform_point3a(pb).to_array())),
+            ],
+            O3::A(x) => vec![
+                ("Affine3A::transform_*3a", f64s(x.transform_vector3a(va).to_array()), f64s(x.transform_point3a(pa).to_array())),
+                ("Affine3A::transform_*3a", f64s(x.transform_vector3a(vb).to_array()), f64s(x.transform_point3a(pb).to_array())),
+            ],
+            _ => return None,
+        })
+    }
     pub fn identity(kind: usize) -> O3 {
         match kind {
             0 => O3::Q(Quat::IDENTITY),
@@ -368,6 +392,12 @@ fn run_chain3(t: &mut Tally, key: &str, start: &O3, rs: &RS<4>, edges: &[&E3], v
     let (dir, pt) = o.act(v, p);
     let ctx = || format!("start={:?} end={:?}", start, o);
     logic::end_check::<4>(cx!(t, KIND3[start.kind()]), key, &path, &r, o.is_quat(), o.u(), &o.comps(), &f64s(v), &f64s(p), &dir, &pt, &ctx)?;
+    if let Some(forms) = o.act_a(v, p) {
+        for (name, dir, pt) in forms {
+            let pa = format!("{path} [{name}]");
+            logic::end_check::<4>(cx!(t, KIND3[start.kind()]), key, &pa, &r, o.is_quat(), o.u(), &o.comps(), &f64s(v), &f64s(p), &dir, &pt, &ctx)?;
+        }
+    }
     Ok((path, r.lossy_edges))
 }
 
